@@ -445,6 +445,62 @@ def h_callers_list(ctx):
     return Outcome(f"callers-list:{'ok' if not vs else 'bad'}", vs, nontrivial=(a1, a2, path, change))
 
 
+# ------------------------------------------------------------------ a key set the caller edits between two signings
+def h_keyset_edited(ctx):
+    """One long-lived KeySet signs ("key given as a key set": joserfc picks a member that suits the algorithm and names its kid), the
+    caller edits `keys` in place (count-preserving and not), and the same set signs again. What the second signing produces must verify
+    with the members the set holds then (a fresh KeySet of them arbitrates) and name the kid of one of them; a withdrawn member signs nothing."""
+    from joserfc.jwk import KeySet
+    alg, kind, other = ctx.choose("alg/key", [("HS256", "oct32", "P-256"), ("ES256", "P-256", "oct32"), ("EdDSA", "Ed25519", "rsa"), ("PS256", "rsa", "Ed25519")])
+    path = ctx.choose("path", ["compact", "flattened", "general"])
+    warm = ctx.choose("signings_before", [0, 1, 2])
+    edit = ctx.choose("set_edited_by", ["keys[i]=new", "pop+append", "remove+insert(0)", "keys=[...]", "clear+extend", "append only", "none"])
+    mk = lambda k, which, kid: A.jkey({**scen.key(k, which), "kid": kid}, "dict")  # noqa
+    ks = KeySet([mk(kind, 0, "a"), mk(other, 0, "x")])
+    vs = []
+
+    def sign_and_check(members, when):
+        r = scen.jws_produce(path, {"alg": alg}, None, b"payload", ks, [alg])
+        if not r.ok:
+            vs.append(viol(f"signing with a key set that holds a suitable key fails {when}", f"{alg} {path} [{edit}]: {r.exc!r}"))
+            return
+        fresh = KeySet([mk(k, w, kid) for k, w, kid in members])
+        c = scen.jws_consume(path, copy.deepcopy(r.value), fresh, [alg])
+        if not c.ok:
+            vs.append(viol(f"what a key set signed {when} does not verify with the members the set holds", f"{alg} {path} [{edit}] after {warm} signing(s): {c.exc!r}"))
+            return
+        kids = [h.get("kid") for h in c.value[1]]
+        if bytes(c.value[0]) != b"payload" or any(k not in [m[2] for m in members if m[0] == kind] for k in kids):
+            vs.append(viol(f"round trip through a key set {when} changes payload or names a kid of no suitable member", f"{alg} {path} [{edit}]: {c.value!r}"))
+    members = [(kind, 0, "a"), (other, 0, "x")]
+    for _ in range(warm):
+        sign_and_check(members, "before any edit")
+    if edit == "keys[i]=new":
+        ks.keys[0] = mk(kind, 1, "b")
+        members = [(kind, 1, "b"), (other, 0, "x")]
+    elif edit == "pop+append":
+        ks.keys.pop(0)
+        ks.keys.append(mk(kind, 1, "b"))
+        members = [(other, 0, "x"), (kind, 1, "b")]
+    elif edit == "remove+insert(0)":
+        ks.keys.remove(ks.keys[0])
+        ks.keys.insert(0, mk(kind, 1, "b"))
+        members = [(kind, 1, "b"), (other, 0, "x")]
+    elif edit == "keys=[...]":
+        ks.keys = [ks.keys[1], mk(kind, 1, "b")]
+        members = [(other, 0, "x"), (kind, 1, "b")]
+    elif edit == "clear+extend":
+        ks.keys.clear()
+        ks.keys.extend([mk(kind, 2, "c"), mk(kind, 1, "b")])
+        members = [(kind, 2, "c"), (kind, 1, "b")]
+    elif edit == "append only":
+        ks.keys.append(mk(kind, 1, "b"))
+        members = members + [(kind, 1, "b")]
+    for _ in range(2):
+        sign_and_check(members, "after the caller edited the set")
+    return Outcome(f"keyset-edited:{'ok' if not vs else 'bad'}", vs, nontrivial=(alg, path, warm, edit))
+
+
 # ------------------------------------------------------------------ keys that declare what they are for
 def h_declared(ctx):
     """A key restricted (use / key_ops, RFC 7517 4.2 / 4.3) to exactly the operation it is used for is a key 'of the type the
@@ -760,8 +816,10 @@ _pt = Part("payloads-given-as-text", h_text_payload, split_depth=2)
 _pt.single_bucket_ok = True
 _pc = Part("callers-allow-list-changed-between-calls", h_callers_list, split_depth=2)
 _pc.single_bucket_ok = True
+_pk = Part("key-set-edited-between-signings", h_keyset_edited, split_depth=2)
+_pk.single_bucket_ok = True
 PARTS = [
-    _pc, _pt,
+    _pc, _pt, _pk,
     Part("rfc7797-functions-with-b64-left-at-its-default", h_7797_default_b64, split_depth=2),
     Part("registry-and-allow-list-in-one-call", h_both_arguments, split_depth=2),
     Part("keys-declaring-their-operation", h_declared, split_depth=2),
